@@ -102,7 +102,9 @@ SymbolicMass == (Done /\ c.m2 \in {100, 101}) => o = EvalOut([c EXCEPT !.m2 = IF
 \* "mass_mistyped": a row carries the mass of its neighbour row of the same level (its own values unchanged):
 \* one (level, mass) pair twice with DIFFERENT values, another pair missing, row count unchanged
 Corruptions == {"none", "remove", "duplicate", "duplicate_and_remove", "tas_depends_on_mass", "mass_mistyped"}
-LoadCases == UNION {[fls : {F}, ph : Phases, corr : Corruptions, r1 : 1..(3 * Len(F)), r2 : 1..(3 * Len(F))] :
+\* only = the table holds the rows of this one phase and nothing else (a model file may do so): the completeness
+\* rule is the same
+LoadCases == UNION {[fls : {F}, ph : Phases, corr : Corruptions, r1 : 1..(3 * Len(F)), r2 : 1..(3 * Len(F)), only : BOOLEAN] :
                        F \in {<<50, 100>>, <<0, 100, 300>>}}
 \* rows of a phase are numbered FL-major; descent has one row per FL
 RowsOf(x) == IF x.ph = "descent" THEN Len(x.fls) ELSE 3 * Len(x.fls)
